@@ -170,9 +170,9 @@ class EvalMixin:
             e2 = dict(env); e2['vars'] = vars
             body = self.ev_bool(a[4], e2)
             pats = []
-            for tr in a[3]:
-                pv, _ = self.ev(tr, e2)
-                pats.append(pv)
+            for grp in a[3]:
+                ps = [self.ev(tr, e2)[0] for tr in grp]
+                pats.append(ps[0] if len(ps) == 1 else z3.MultiPattern(*ps))
             if a[1] == 'forall':
                 return (ForAll(bound, body, patterns=pats) if pats else ForAll(bound, body), 'bool')
             return (Exists(bound, body), 'bool')
@@ -273,6 +273,11 @@ class EvalMixin:
             if env['old'] is None: raise Unsupported('fresh() without a pre-state')
             if isinstance(v, SliceV): v = v.arr
             return (v > env['old']['st'].alloc, 'bool')
+        if name == 'wasalloc':
+            v, t = self.ev(args[0], env)
+            if env['old'] is None: raise Unsupported('wasalloc() without a pre-state')
+            if isinstance(v, SliceV): v = v.arr
+            return (And(v > 0, v <= env['old']['st'].alloc), 'bool')
         if name == 'allocated':
             v, t = self.ev(args[0], env)
             if isinstance(v, SliceV): v = v.arr
